@@ -1708,5 +1708,5 @@ def is_a(file_name: str) -> Optional[RadarSatReader]:
         details = RadarSatDetails(file_name)
         logger.info('Path {} is determined to be or contain a RadarSat or RCM product.xml file.'.format(file_name))
         return RadarSatReader(details)
-    except SarpyIOError:
+    except (SarpyIOError, ElementTree.ParseError):
         return None
